@@ -8,6 +8,8 @@ import (
 	"sort"
 	"strings"
 
+	"golang.org/x/tools/go/packages"
+
 	"d2verif/internal/core"
 )
 
@@ -18,8 +20,9 @@ func init() {
 		Patterns: []string{"./lib/shape", "./d2graph", "./d2target", "./lib/geo", "./lib/label"},
 		Explanation: "Decides structural necessary conditions, not the fit inequality: (1) every shape-type constant of lib/shape has a constructor arm in NewShape and every DSL shape name of d2target maps to such a constant; (2) method-set pairing: a shape type that gives its text area another box than its own (overrides GetInnerBox) also overrides GetDimensionsToFit (so the fitted size accounts for that text area) and Perimeter (so ends are traced onto its real outline) — or is listed as rectangular by construction; " +
 			"(3) in Edge.TraceToShape the flags that divert an end to an outside label or icon are not carried over from the source end to the destination end: on every path from a `flag = true` of the source half to the test that guards tracing the destination onto its outline, the flag is reset; both ends are traced by TraceToShapeBorder with that end's own shape and points.",
+			" (4) axis twins: the helper pairs getTipWidth/getTipHeight, getArcWidth/getArcHeight and Orientation.IsHorizontal/IsVertical — confirmed mirror images of each other — stay token-for-token mirror images (identifiers renamed one-to-one, literal operands of products and sums in either order).",
 		NotCovered: "the fit inequality itself and the outline distance (numeric properties of the per-shape formulas, e.g. the callout tip arithmetic)",
-		Technique:  "static analysis: switch exhaustiveness, method-set pairing, typestate (stale-flag) reachability on go/cfg",
+		Technique:  "static analysis: switch exhaustiveness, method-set pairing, typestate (stale-flag) reachability on go/cfg, sibling (axis-twin) agreement",
 		Run:        runC27,
 	})
 }
@@ -35,6 +38,34 @@ func runC27(c *core.Check) {
 	if pk == nil {
 		c.Broken("lib/shape not loaded")
 		return
+	}
+	// (4) axis twins: helper pairs named …Width/…Height (…Horizontal/…Vertical) that were confirmed to be mirror
+	// images of each other stay mirror images — the outline, the inner box and the fitted size use both.
+	c.Rule("C27.axis-twins", "helper pairs named for the two axes are token-for-token mirror images")
+	{
+		expected := map[string]string{
+			"lib/shape.getTipWidth":              "callout tip: half the box when the box is smaller than twice the default tip, for both axes",
+			"lib/shape.getArcWidth":              "cylinder/queue arc depth: same clamp for both orientations",
+			"lib/geo.(Orientation).IsHorizontal": "orientation classification",
+		}
+		nt := 0
+		var tw []*packages.Package
+		for _, rel := range []string{"lib/shape", "lib/geo"} {
+			if p := c.P.Pkg(rel); p != nil {
+				tw = append(tw, p)
+			}
+		}
+		for _, tp := range axisTwins(c.P, tw) {
+			if expected[fname(tp.A)] == "" {
+				continue
+			}
+			nt++
+			c.Decide(tp.Mirror, "C27.axis-twins", "twins:"+fname(tp.A)+"~"+tp.B.Decl.Name.Name, tp.B.Decl.Pos(), "mirror images ("+expected[fname(tp.A)]+")",
+				fmt.Sprintf("%s and %s are no longer mirror images of each other (%s): the shape's outline, inner box and fitted size treat width and height differently, so content can overflow or an end can miss the outline for boxes where only one of the two clamps applies", fname(tp.A), tp.B.Decl.Name.Name, tp.Why))
+		}
+		if nt < 2 {
+			c.Fail("C27.axis-twins", "twins:inventory", token.NoPos, fmt.Sprintf("only %d of the confirmed axis-twin pairs found", nt))
+		}
 	}
 	// (1)
 	var typeConsts []*types.Const
